@@ -15,6 +15,7 @@ import (
 
 	"github.com/Comcast/sheens/core"
 	"github.com/Comcast/sheens/interpreters/ecmascript"
+	"github.com/Comcast/sheens/interpreters/noop"
 	"github.com/Comcast/sheens/match"
 
 	"verif/ref"
@@ -41,6 +42,8 @@ type genCfg struct {
 	nativeOnly  bool // every action and guard is native (no interpreter, no goroutines)
 	inPlace     bool // native guards may work directly on the bindings they are handed
 	ext         bool // scripts run in the extended interpreter and may call _.randstr()
+	noop        bool // some actions and guards run in the shipped noop interpreter
+	globals     bool // scripts may count in a global of their runtime (a fresh runtime starts at 1)
 	sameStub    bool // native actions that hand back the very bindings they were given
 	varStrings  bool // message values may be strings that look like pattern variables ("?v"): data, not patterns
 }
@@ -162,6 +165,10 @@ func genMessage(c *sim.Ctx) interface{} {
 }
 
 func genAction(c *sim.Ctx, cfg genCfg, names []string, guard bool) *ref.Action {
+	if cfg.noop && c.Chance(1, 6, "noop") {
+		// hands back the bindings it is given and emits nothing
+		return &ref.Action{Noop: true, Stub: "same"}
+	}
 	a := &ref.Action{}
 	if cfg.native && (cfg.nativeOnly || c.Chance(1, 3, "native")) {
 		a.Native = true
@@ -234,6 +241,8 @@ func genAction(c *sim.Ctx, cfg genCfg, names []string, guard bool) *ref.Action {
 			if guard {
 				a.Ops = append(a.Ops, ref.Op{Kind: "require", K: "?v", V: []interface{}{1.0, 2.0, 3.0, "x", "y"}[c.Intn(5, "reqval")]})
 			}
+		case k == 15 && cfg.globals && !a.Native && c.Bool("globalinc"):
+			a.Ops = append(a.Ops, ref.Op{Kind: "globalinc"})
 		case k == 15:
 			if cfg.propWrites && !a.Native {
 				a.Ops = append(a.Ops, ref.Op{Kind: "propset"})
@@ -334,6 +343,9 @@ func genSpec(c *sim.Ctx, cfg genCfg) *ref.Spec {
 			if cfg.loops && c.Bool("bindingsnode") {
 				n.HasBr = true
 				n.Type = "bindings"
+				if c.Chance(1, 3, "typeless") {
+					n.Type = "" // a branching object without a type (bindings is the default), maybe without branches
+				}
 				genBranches(n, bsKeys, false)
 			}
 			// else terminal
@@ -432,6 +444,8 @@ func renderJS(a *ref.Action) string {
 			sb.WriteString("return [1];\n")
 		case "retfn":
 			sb.WriteString("return function() { return 1; };\n")
+		case "globalinc":
+			sb.WriteString("var G = (new Function(\"return this\"))(); G.cnt = (G.cnt || 0) + 1; Math.cnt = (Math.cnt || 0) + 1; bs[\"g\"] = G.cnt + Math.cnt;\n")
 		case "randstr":
 			sb.WriteString("bs[\"r\"] = typeof _.randstr();\n")
 		case "matchstore":
@@ -499,6 +513,7 @@ func nativeAction(a *ref.Action) *core.FuncAction {
 			w = map[string]interface{}{}
 		}
 		exe := core.NewExecution(nil)
+		gi := 0.0
 		for _, op := range a.Ops {
 			switch op.Kind {
 			case "emit":
@@ -526,6 +541,9 @@ func nativeAction(a *ref.Action) *core.FuncAction {
 				}
 			case "del":
 				delete(w, op.K)
+			case "globalinc":
+				gi++
+				w["g"] = 2 * gi
 			case "randstr":
 				w["r"] = fmt.Sprintf("%T", core.Gensym(8))
 			case "matchstore":
@@ -555,10 +573,10 @@ func nativeAction(a *ref.Action) *core.FuncAction {
 	}}
 }
 
-var interpreters = core.InterpretersMap{"ecmascript": ecmascript.NewInterpreter()}
+var interpreters = core.InterpretersMap{"ecmascript": ecmascript.NewInterpreter(), "noop": noop.NewInterpreter()}
 
 // interpretersExt: the same name bound to the extended interpreter (_.randstr, _.match, ...).
-var interpretersExt = core.InterpretersMap{"ecmascript": &ecmascript.Interpreter{Extended: true}}
+var interpretersExt = core.InterpretersMap{"ecmascript": &ecmascript.Interpreter{Extended: true}, "noop": noop.NewInterpreter()}
 
 // genExt: the program being generated runs in the extended interpreter.
 var genExt = false
@@ -575,6 +593,9 @@ func compile(s *ref.Spec) (*core.Spec, error) {
 	act := func(a *ref.Action) (core.Action, *core.ActionSource) {
 		if a == nil {
 			return nil, nil
+		}
+		if a.Noop {
+			return nil, &core.ActionSource{Interpreter: "noop", Source: ""}
 		}
 		if a.Native {
 			return nativeAction(a), nil
